@@ -1209,11 +1209,11 @@ example : Kind.charIn ∈ allKinds ∧ [1, 12, 31, 40, 51] ∈ Kind.charIn.cpath
 example :
     let p (n : Nat) (ptr intent : Nat) (hid : Bool) (imp : Nat) : Param :=
       ⟨n, ⟨10, ptr, intent, 0, 0, false, 0, 1⟩, ⟨10, ptr, intent, 0, 0, false, 0, 1⟩, false, hid, false, false, false, imp, false⟩
-    let fn : Fn := ⟨1, true, true, 0, false, 10, 30, 0, 0, [p 1 30 40 false 0, p 2 30 40 false 1, p 3 31 41 true 0]⟩
+    let fn : Fn := ⟨1, true, true, 0, 0, false, 10, 30, 0, 0, [p 1 30 40 false 0, p 2 30 40 false 1, p 3 31 41 true 0]⟩
     (assembleF (rowsOf true) fn).fargs = [0, 1] ∧
     (assembleF (rowsOf true) fn).actuals = [.this, .var 1, .implied 2, .var 3] := by
   decide +kernel
-example : (lookup (rowsOf true) (fPathRes ⟨0, true, true, 0, false, 10, 30, 0, 0, []⟩)).clause 9 = [] := by decide +kernel
+example : (lookup (rowsOf true) (fPathRes ⟨0, true, true, 0, 0, false, 10, 30, 0, 0, []⟩)).clause 9 = [] := by decide +kernel
 example : ([1, 2, 3] : List Nat).length = 1 + 2 := rfl
 
 end Shroud.WrapF
